@@ -71,6 +71,7 @@ static __thread int in_rt __attribute__((tls_model("initial-exec"))) = 0;
 static pmc_exec_rec* X = nullptr;    // shared record of the running execution
 static long nops, npoints, nswitch, nfocus_switch, ops_since_switch;
 static long QUANTUM = 4000, STUCK_ROUNDS = 400;
+static long OPS_HORIZON = 6000000;    // explicit horizon: an execution that needs more hooked operations is a livelock
 static long quantum_cfg = 4000, stuck_cfg = 400;
 static uint64_t vclock_ns, last_progress_vclock;
 static uint64_t epoch;    // global progress epoch
@@ -518,7 +519,12 @@ static inline Pre pre_op(int kind, const volatile void* a, const void* ra)
     Pre p{-1, 1, 0};
     if (!controlled()) return p;
     p.skip = 0;
-    ++nops;
+    if (++nops > OPS_HORIZON * (X && X->limit_mult > 1 ? X->limit_mult : 1))
+    {
+        in_rt = 1;
+        if (stuck_cb) { in_rt = 0; ctl = 0; stuck_cb(); in_rt = 1; }
+        die(OUT_STUCK, "stuck", "horizon: the execution did not finish within the operation horizon (threads keep running without finishing: livelock)");
+    }
     if (++ops_since_switch > QUANTUM)
     {
         in_rt = 1;
@@ -737,6 +743,7 @@ int pmc_self(void) { return self; }
 int pmc_controlled(void) { return ctl && self >= 0; }
 void pmc_on_stuck(void (*cb)(void)) { stuck_cb = cb; }
 void pmc_set_quantum(long ops) { quantum_cfg = ops; QUANTUM = ops * (X && X->limit_mult ? X->limit_mult : 1); }
+void pmc_set_horizon(long ops) { OPS_HORIZON = ops; }
 void pmc_set_stuck_rounds(long r) { stuck_cfg = r; STUCK_ROUNDS = r * (X && X->limit_mult ? X->limit_mult : 1); }
 
 void pmc_rt_begin(pmc_exec_rec* rec)
